@@ -9,6 +9,8 @@ something module-wide "for the duration" (validation, a charset, a default) is v
     a port being iterated, a parser being iterated
     a block `with meta_charset(<the default charset>)` that is never left
     a second thread parked in the body of `for msg in midifile` and another inside `for msg in port`
+    a tokenizer, parsers and a queue that still hold what nobody fetched; a hashed frozen message
+    a thread that feeds and drains a tokenizer, a parser and a queue of its own every two milliseconds
 
 None of these objects is ever touched by a check, and each property quantifies over all call histories of the
 process: nothing a check observes may differ.
@@ -54,6 +56,20 @@ def enter_forever():
     cm = meta.meta_charset(meta._charset)
     cm.__enter__()
     _KEEP.extend([m1, m2, m3, it1, it2, port, it3, parser, it4, cm])
+    # things left lying around half used: a tokenizer and parsers that still hold what nobody fetched, a queue with messages
+    # in it, a parser in the middle of a message, a frozen message that has been hashed
+    from mido.tokenizer import Tokenizer
+    from mido.backends._parser_queue import ParserQueue
+    from mido.frozen import freeze_message
+    tok = Tokenizer([0xF0, 0x7D, 0x01, 0xF7, 0x9F, 0x11, 0x22, 0xF8, 0xB0])
+    p2 = mido.Parser([0xF0, 0x7D, 0x02, 0xF7, 0x8E, 0x33, 0x44])
+    p3 = mido.Parser()
+    p3.feed([0x9D, 0x55])
+    q = ParserQueue()
+    q.put_bytes([0xF0, 0x7D, 0x03, 0xF7, 0xCA, 0x05])
+    fz = freeze_message(mido.Message('sysex', data=(0x7D, 4)))
+    hash(fz)
+    _KEEP.extend([tok, p2, p3, q, fz])
 
     parked = threading.Event()
     never = threading.Event()
@@ -78,4 +94,28 @@ def enter_forever():
         ev.wait(10)
         _KEEP.append(th)
     _KEEP.append(port2)
+
+    # and one thread that keeps using the library for itself: its own tokenizer, parser and queue, fed and drained every
+    # couple of milliseconds (an input port's callback thread does nothing else) - nobody else ever sees these objects
+    pause = threading.Event()
+
+    def churn():
+        tok = Tokenizer()
+        par = mido.Parser()
+        cq = ParserQueue()
+        while True:
+            try:
+                tok.feed([0xF0, 0x7D, 0x09, 0xF7, 0x9C, 0x01])
+                list(tok)
+                par.feed(b'\x8b\x02\x03\xf0\x7d\x0a')
+                par.get_message()
+                cq.put_bytes([0xF0, 0x7D, 0x0B, 0xF7])
+                cq.poll()
+                mido.Message('sysex', data=(0x7D, 0x0C)).copy(time=1).bytes()
+            except BaseException:          # (fault injection of a check may hit this thread's lines too)
+                pass
+            pause.wait(0.002)
+    th = threading.Thread(target=churn, daemon=True, name='vmon-ambient-churn')
+    th.start()
+    _KEEP.append(th)
     return len(_KEEP)
